@@ -2,9 +2,11 @@
 //! `OP args :: implementation answer` lines for the Lean driver.
 mod c08;
 mod c10;
+mod c11;
 mod c12;
 mod c13;
 mod defs;
+mod enc;
 mod gen;
 mod parse;
 mod pieces;
@@ -31,10 +33,11 @@ fn run_line(state: &mut parse::RunState, request: &str) -> Option<(String, Strin
                 (it.next().unwrap().to_string(), it.next().unwrap().to_string())
             })
         }
+        Some("NORM") => c11::run_request(&words),
         Some("SPLIT") => c10::run_request(&words),
         Some("CMAP_LOAD") | Some("NORMS") => c12::run_request(state, &words),
         Some("DEF") => parse::run_def(state, &words).map(|a| (request.to_string(), a)),
-        Some("ENC") | Some("DEC") | Some("BPE") | Some("UNI") | Some("WP") => parse::run_encdec(state, &words),
+        Some("ENC") | Some("ENC2") | Some("ENC7") | Some("ENC9") | Some("ENC18") | Some("DEC") | Some("BPE") | Some("UNI") | Some("WP") => parse::run_encdec(state, &words),
         _ => None,
     }
 }
@@ -55,9 +58,11 @@ fn main() {
             let mut rng = rng::Rng::new(seed);
             let mut out = sink::Sink::new(shards);
             match prop {
+                "C01" | "C02" | "C07" | "C09" | "C18" => enc::gen(prop, &mut rng, thorough, &mut out),
                 "C03" | "C04" | "C05" | "C06" => pieces::gen(prop, &mut rng, thorough, &mut out),
                 "C08" => c08::gen(&mut rng, thorough, &mut out),
                 "C10" => c10::gen(&mut rng, thorough, &mut out),
+                "C11" => c11::gen(&mut rng, thorough, &mut out),
                 "C12" => c12::gen(&mut rng, thorough, &mut out),
                 "C13" => c13::gen(&mut rng, thorough, &mut out),
                 "SMOKE" => smoke::gen(&mut rng, thorough, &mut out),
